@@ -1671,6 +1671,7 @@ def inverse_consistency_loss(
                 f"inverse_consistency_loss() 'mask' batch size must be 1 or {error.shape[0]}"
             )
         error[move_dim(mask == 0, 1, -1).expand_as(error)] = 0
+        mask = (mask != 0).squeeze(1).expand(error.shape[:-1])
     # Discard error at grid boundary
     if margin > 0:
         if isinstance(margin, float):
@@ -1683,6 +1684,8 @@ def inverse_consistency_loss(
             m = [max(0, int(margin))] * grid.ndim
         subgrid = tuple(reversed([slice(i, n - i) for i, n in zip(m, grid.size())]))
         error = error[(slice(0, error.shape[0]),) + subgrid + (slice(0, grid.ndim),)]
+        if mask is not None:
+            mask = mask[(slice(0, mask.shape[0]),) + subgrid]
     # Scale differences by respective error units
     if units in ("voxel", "world"):
         error = denormalize_flow(
@@ -1698,7 +1701,7 @@ def inverse_consistency_loss(
         error = error.sum()
         if reduction == "mean":
             if mask is not None:
-                count = (mask != 0).sum()
+                count = mask.sum()
             error /= count
     return error
 
